@@ -437,13 +437,22 @@ func genPicture(r *prng.R) *picture {
 		p.fracSeps = []int{r.Range(1, m-1)}
 	}
 	p.prefix, p.suffix = c18Affix[r.Intn(len(c18Affix))], c18Affix[r.Intn(len(c18Affix))]
+	signInPrefix := r.Intn(3) == 0 // (the sign may stand on either side of the digits)
 	switch r.Intn(6) {
 	case 0:
 		p.scale = 2
-		p.suffix += p.percent
+		if signInPrefix {
+			p.prefix += p.percent
+		} else {
+			p.suffix += p.percent
+		}
 	case 1:
 		p.scale = 3
-		p.suffix = p.permille + p.suffix
+		if signInPrefix {
+			p.prefix = p.permille + p.prefix
+		} else {
+			p.suffix = p.permille + p.suffix
+		}
 	case 2:
 		p.expDigits = r.Range(1, 3)
 		p.intSeps, p.fracSeps = nil, nil
@@ -455,10 +464,18 @@ func genPicture(r *prng.R) *picture {
 			p.prefix2, p.suffix2 = "minus ", ""
 		}
 		if p.scale == 2 {
-			p.suffix2 += p.percent
+			if signInPrefix {
+				p.prefix2 += p.percent
+			} else {
+				p.suffix2 += p.percent
+			}
 		}
 		if p.scale == 3 {
-			p.suffix2 += p.permille
+			if signInPrefix {
+				p.prefix2 = p.permille + p.prefix2
+			} else {
+				p.suffix2 += p.permille
+			}
 		}
 	}
 	return p
